@@ -20,6 +20,7 @@ package c09
 import (
 	"crypto/sha256"
 	"encoding/json"
+	"errors"
 	"fmt"
 	"math"
 	"math/big"
@@ -33,6 +34,7 @@ import (
 	"time"
 
 	"github.com/lightningnetwork/lnd/channeldb"
+	"github.com/lightningnetwork/lnd/fn/v2"
 	"github.com/lightningnetwork/lnd/graph/db/models"
 	"github.com/lightningnetwork/lnd/htlcswitch"
 	"github.com/lightningnetwork/lnd/lnwallet"
@@ -64,6 +66,17 @@ type Case struct {
 	InT         uint32 `json:"incoming_expiry"`
 	OutT        uint32 `json:"outgoing_expiry"`
 	Height      uint32 `json:"height"`
+
+	// Dimensions added by the audit (zero value = the behaviour of the original
+	// lattice, so older replay artefacts stay valid). See dims_test.go.
+	OwnIB   int32    `json:"own_inbound_base,omitempty"`      // InboundFee of the checked link's OWN policy (must not matter)
+	OwnIR   int32    `json:"own_inbound_rate_ppm,omitempty"`  //
+	Shaper  string   `json:"aux_shaper,omitempty"`            // "", "pass", "bw", "custom"
+	AuxBW   uint64   `json:"aux_bandwidth_msat,omitempty"`    // bandwidth reported by the shaper in mode "bw"
+	Records bool     `json:"custom_records,omitempty"`        // HTLC carries a custom record
+	UpdSrc  string   `json:"update_source,omitempty"`         // "", "fallback", "fetcherr"
+	Prov    string   `json:"policy_provenance,omitempty"`     // "", "ctor", "upd-decoy", "upd-zero"
+	Win     *WinSpec `json:"policy_update_in_check,omitempty"` // policy installed from inside the check
 }
 
 // ---------------------------------------------------------------------------
@@ -73,7 +86,13 @@ type world struct {
 	name string
 	ch   *lnwallet.LightningChannel
 	bw   uint64
+	// bwAtLinkCreation differs from bw for the "live" world only: its links are
+	// created first, then the channel state changes.
+	bwAtLinkCreation uint64
 }
+
+// liveAmt is the HTLC that takes an untouched initiator channel down to 37 msat.
+var liveAmt uint64
 
 func addHTLC(t *testing.T, ch *lnwallet.LightningChannel, amt uint64, i byte) {
 	h := sha256.Sum256([]byte{i})
@@ -121,6 +140,18 @@ func buildWorlds(t *testing.T) []*world {
 		}
 		ws = append(ws, &world{name: name, ch: a, bw: got})
 	}
+	liveAmt = bw0 - k - 37
+	// another channel type: anchors (the checks are type-agnostic; only the
+	// measured bandwidth differs).
+	an, _, err := lnwallet.CreateTestChannels(t, channeldb.SingleFunderTweaklessBit|
+		channeldb.AnchorOutputsBit|channeldb.ZeroHtlcTxFeeBit)
+	if err != nil {
+		t.Fatalf("CreateTestChannels(anchors): %v", err)
+	}
+	ws = append(ws, &world{name: "anchors", ch: an, bw: uint64(an.AvailableBalance())})
+	for _, w := range ws {
+		w.bwAtLinkCreation = w.bw
+	}
 	return ws
 }
 
@@ -128,8 +159,9 @@ func buildWorlds(t *testing.T) []*world {
 // evaluator: one per worker; owns its links (a link is mutated by UpdateForwardingPolicy)
 
 type linkKey struct {
-	w      int
+	w      string
 	rd, me uint32
+	shaper bool // an AuxTrafficShaper is configured (fixed at construction)
 }
 
 type outcomeT struct {
@@ -160,6 +192,7 @@ var outcomeIdx = map[string]int{
 type stats struct {
 	evals         int
 	byPart        map[string]int
+	byDim         map[string]int
 	outcomes      map[string]int // kind:outcome
 	ruleViolated  map[string]int // oracle: rule found violated
 	nearThreshold map[string]int // rule(class) for class in -1,0,1
@@ -174,7 +207,7 @@ type stats struct {
 }
 
 func newStats() *stats {
-	return &stats{byPart: map[string]int{}, outcomes: map[string]int{}, ruleViolated: map[string]int{},
+	return &stats{byPart: map[string]int{}, byDim: map[string]int{}, outcomes: map[string]int{}, ruleViolated: map[string]int{},
 		nearThreshold: map[string]int{}, classes: map[uint64]struct{}{}, classesNT: map[uint64]struct{}{},
 		outMismatch: map[string]int{}, samples: map[string][]any{}}
 }
@@ -182,6 +215,7 @@ func newStats() *stats {
 type evaluator struct {
 	run     *evid.Run
 	worlds  []*world
+	live    *world // evaluator-local world, see initLive
 	links   map[linkKey]htlcswitch.ChannelLink
 	lastPol map[linkKey]models.ForwardingPolicy
 	havePol map[linkKey]bool
@@ -191,43 +225,111 @@ type evaluator struct {
 	samples *evid.Samples
 	verbose bool
 	upd     *lnwire.ChannelUpdate1
+	updMode string  // how the failure's channel_update is obtained for the current call
+	sh      *shaper // the aux traffic shaper of this evaluator's shaper links
 }
 
 func newEvaluator(run *evid.Run, worlds []*world, samples *evid.Samples) *evaluator {
 	return &evaluator{run: run, worlds: worlds, links: map[linkKey]htlcswitch.ChannelLink{},
 		lastPol: map[linkKey]models.ForwardingPolicy{}, havePol: map[linkKey]bool{},
-		or: newOracle(), st: newStats(), samples: samples, upd: &lnwire.ChannelUpdate1{}}
+		or: newOracle(), st: newStats(), samples: samples, upd: &lnwire.ChannelUpdate1{}, sh: &shaper{}}
 }
 
-func (e *evaluator) worldIdx(name string) int {
-	for i, w := range e.worlds {
+func (e *evaluator) world(name string) *world {
+	if name == "live" {
+		return e.live
+	}
+	for _, w := range e.worlds {
 		if w.name == name {
-			return i
+			return w
 		}
 	}
-	return -1
+	return nil
+}
+
+// initLive builds this evaluator's private "live" world: an untouched initiator
+// channel whose links are created FIRST (spendable bandwidth ~4.9 BTC) and which
+// then offers an HTLC that leaves 37 msat spendable. A link that remembered
+// anything about the channel from its construction time is stale there.
+// Must be called from the test goroutine.
+func (e *evaluator) initLive(t *testing.T) {
+	a, _, err := lnwallet.CreateTestChannels(t, channeldb.SingleFunderTweaklessBit)
+	if err != nil {
+		t.Fatalf("CreateTestChannels(live): %v", err)
+	}
+	w := &world{name: "live", ch: a, bwAtLinkCreation: uint64(a.AvailableBalance())}
+	e.live = w
+	for _, sh := range []bool{false, true} {
+		k := linkKey{"live", aRd, aMe, sh}
+		l := e.newLink(k, nil)
+		// touch the bandwidth once so that a memoising link would have a value
+		_ = l.Bandwidth()
+		e.links[k] = l
+	}
+	addHTLC(t, a, liveAmt, 3)
+	w.bw = uint64(a.AvailableBalance())
+}
+
+// newLink builds a fresh, never started link. pol (optional) is handed to the
+// constructor as cfg.FwrdingPolicy.
+func (e *evaluator) newLink(k linkKey, pol *models.ForwardingPolicy) htlcswitch.ChannelLink {
+	cfg := htlcswitch.ChannelLinkConfig{
+		OutgoingCltvRejectDelta: k.rd,
+		MaxOutgoingCltvExpiry:   k.me,
+		// The failure carries "our latest channel update"; its content is not
+		// part of the property, a fixed one is supplied. HOW it is obtained is a
+		// dimension: from the alias hook, from the fallback, or not at all.
+		FailAliasUpdate: func(lnwire.ShortChannelID, bool) *lnwire.ChannelUpdate1 {
+			if e.updMode != "" {
+				return nil
+			}
+			return e.upd
+		},
+		FetchLastChannelUpdate: func(lnwire.ShortChannelID) (*lnwire.ChannelUpdate1, error) {
+			if e.updMode == "fetcherr" {
+				return nil, errors.New("no channel update known")
+			}
+			return e.upd, nil
+		},
+		DisallowQuiescence: true,
+	}
+	if pol != nil {
+		cfg.FwrdingPolicy = *pol
+	}
+	if k.shaper {
+		cfg.AuxTrafficShaper = fn.Some[htlcswitch.AuxTrafficShaper](e.sh)
+		cfg.Peer = fakePeer{}
+	}
+	return htlcswitch.NewChannelLink(cfg, e.world(k.w).ch)
 }
 
 func (e *evaluator) link(k linkKey) htlcswitch.ChannelLink {
 	if l, ok := e.links[k]; ok {
 		return l
 	}
-	upd := e.upd
-	cfg := htlcswitch.ChannelLinkConfig{
-		OutgoingCltvRejectDelta: k.rd,
-		MaxOutgoingCltvExpiry:   k.me,
-		// The failure carries "our latest channel update"; its content is not
-		// part of the property, a fixed one is supplied.
-		FailAliasUpdate: func(lnwire.ShortChannelID, bool) *lnwire.ChannelUpdate1 { return upd },
-		FetchLastChannelUpdate: func(lnwire.ShortChannelID) (*lnwire.ChannelUpdate1, error) {
-			return upd, nil
-		},
-		DisallowQuiescence: true,
+	if k.w == "live" {
+		panic("the live world only has links with the standard reject delta / max expiry")
 	}
-	l := htlcswitch.NewChannelLink(cfg, e.worlds[k.w].ch)
+	l := e.newLink(k, nil)
 	e.links[k] = l
 	return l
 }
+
+func polOf(c *Case) models.ForwardingPolicy {
+	return models.ForwardingPolicy{
+		MinHTLCOut: lnwire.MilliSatoshi(c.Min), MaxHTLC: lnwire.MilliSatoshi(c.Max),
+		BaseFee: lnwire.MilliSatoshi(c.Base), FeeRate: lnwire.MilliSatoshi(c.Rate),
+		TimeLockDelta: c.Delta,
+		// The link's own InboundFee is what it charges when it is the *incoming*
+		// link; the forwarding check receives the incoming link's fee as an
+		// argument. OwnIB/OwnIR are therefore decoys.
+		InboundFee: models.InboundFee{Base: c.OwnIB, Rate: c.OwnIR},
+	}
+}
+
+// decoyPol differs from every enumerated policy in every field.
+var decoyPol = models.ForwardingPolicy{MinHTLCOut: 77_777, MaxHTLC: 88_888, BaseFee: 9_999, FeeRate: 54_321,
+	TimeLockDelta: 77, InboundFee: models.InboundFee{Base: 4_444, Rate: 3_333}}
 
 // call runs the real code on one case.
 func (e *evaluator) call(c *Case) (o outcomeT) {
@@ -235,28 +337,66 @@ func (e *evaluator) call(c *Case) (o outcomeT) {
 		if r := recover(); r != nil {
 			o = outcomeT{Panic: fmt.Sprint(r)}
 		}
+		e.sh.hook = nil
 	}()
-	k := linkKey{e.worldIdx(c.World), c.RejectDelta, c.MaxExpiry}
-	l := e.link(k)
-	pol := models.ForwardingPolicy{
-		MinHTLCOut: lnwire.MilliSatoshi(c.Min), MaxHTLC: lnwire.MilliSatoshi(c.Max),
-		BaseFee: lnwire.MilliSatoshi(c.Base), FeeRate: lnwire.MilliSatoshi(c.Rate),
-		TimeLockDelta: c.Delta,
-		// The link's own InboundFee is what it charges when it is the *incoming*
-		// link; the forwarding check receives the incoming link's fee as an argument.
+	if e.world(c.World) == nil {
+		panic("unknown world " + c.World)
 	}
-	if !e.havePol[k] || e.lastPol[k] != pol {
+	k := linkKey{c.World, c.RejectDelta, c.MaxExpiry, c.Shaper != ""}
+	pol := polOf(c)
+	var l htlcswitch.ChannelLink
+	switch c.Prov {
+	case "":
+		l = e.link(k)
+		if !e.havePol[k] || e.lastPol[k] != pol {
+			l.UpdateForwardingPolicy(pol)
+			e.lastPol[k], e.havePol[k] = pol, true
+		}
+	case "ctor": // policy handed to the constructor, never updated
+		if k.w == "live" {
+			panic("provenance cases do not run in the live world")
+		}
+		l = e.newLink(k, &pol)
+	case "upd-decoy": // constructed with a policy that differs in every field
+		l = e.newLink(k, &decoyPol)
 		l.UpdateForwardingPolicy(pol)
-		e.lastPol[k], e.havePol[k] = pol, true
+	case "upd-zero": // constructed blank, updated twice
+		l = e.newLink(k, nil)
+		l.UpdateForwardingPolicy(decoyPol)
+		l.UpdateForwardingPolicy(pol)
+	default:
+		panic("unknown provenance " + c.Prov)
+	}
+	e.updMode = c.UpdSrc
+	var records lnwire.CustomRecords
+	if c.Records {
+		records = lnwire.CustomRecords{lnwire.MinCustomRecordsTlvType + 7: []byte{1}}
+	}
+	if c.Shaper != "" {
+		e.sh.handle, e.sh.custom, e.sh.bw = c.Shaper == "bw", c.Shaper == "custom", lnwire.MilliSatoshi(c.AuxBW)
+		if c.Win != nil {
+			w := c.Win
+			p2 := models.ForwardingPolicy{MinHTLCOut: lnwire.MilliSatoshi(w.Min), MaxHTLC: lnwire.MilliSatoshi(w.Max),
+				BaseFee: lnwire.MilliSatoshi(w.Base), FeeRate: lnwire.MilliSatoshi(w.Rate), TimeLockDelta: w.Delta}
+			at := w.At
+			e.sh.hook = func(where string) {
+				if where == at {
+					l.UpdateForwardingPolicy(p2)
+				}
+			}
+			e.havePol[k] = false
+		}
+	} else if c.Win != nil {
+		panic("a policy update inside the check needs a shaper hook")
 	}
 	var hash [32]byte
 	var le *htlcswitch.LinkError
 	if c.Kind == kindTransit {
-		le = l.CheckHtlcTransit(hash, lnwire.MilliSatoshi(c.Out), c.OutT, c.Height, nil)
+		le = l.CheckHtlcTransit(hash, lnwire.MilliSatoshi(c.Out), c.OutT, c.Height, records)
 	} else {
 		le = l.CheckHtlcForward(hash, lnwire.MilliSatoshi(c.In), lnwire.MilliSatoshi(c.Out),
 			c.InT, c.OutT, models.InboundFee{Base: c.IB, Rate: c.IR}, c.Height,
-			lnwire.ShortChannelID{BlockHeight: 1}, nil)
+			lnwire.ShortChannelID{BlockHeight: 1}, records)
 	}
 	if le == nil {
 		return outcomeT{Accept: true}
@@ -274,7 +414,10 @@ func (e *evaluator) call(c *Case) (o outcomeT) {
 
 // check evaluates one case on the real code and judges it.
 func (e *evaluator) check(c *Case) {
-	w := e.worlds[e.worldIdx(c.World)]
+	w := e.world(c.World)
+	if w == nil {
+		panic("unknown world " + c.World)
+	}
 	c.Bandwidth = w.bw
 	o := e.call(c)
 	v := e.or.judge(c)
@@ -319,11 +462,42 @@ func (e *evaluator) check(c *Case) {
 		st.outDomain++
 	}
 
+	for _, d := range dimsOf(c) {
+		st.byDim[d]++
+	}
+
 	problem, sig := e.judgeOutcome(c, o, v)
+	inDomain, domainReason := v.inDomain, v.domainReason
+	var v2 *verdict
+	if c.Win != nil {
+		// A policy update lands while the check runs: the verdict has to be the
+		// verdict under the old policy or the verdict under the new policy as a
+		// whole (the check is atomic w.r.t. policy updates), never a mixture.
+		c2 := *c
+		c2.Min, c2.Max, c2.Base, c2.Rate, c2.Delta = c.Win.Min, c.Win.Max, c.Win.Base, c.Win.Rate, c.Win.Delta
+		v2 = e.or.judge(&c2)
+		if problem != "" {
+			if p2, _ := e.judgeOutcome(&c2, o, v2); p2 == "" {
+				problem, sig = "", ""
+			} else {
+				problem = "with a policy update arriving inside the check the verdict fits neither the old policy (" + problem +
+					") nor the new policy (" + p2 + ")"
+			}
+		}
+		if !v2.inDomain {
+			inDomain, domainReason = false, v2.domainReason
+		}
+	}
+	if sig != "" {
+		sig += dimSig(c)
+	}
 	if e.verbose {
 		fmt.Printf("INFO case %s\n", mustJSON(c))
 		fmt.Printf("INFO real code: %s\n", o)
 		fmt.Printf("INFO exact arithmetic: accept=%v in_realistic_domain=%v  %s\n", v.accept, v.inDomain, v.describe(c.Kind))
+		if v2 != nil {
+			fmt.Printf("INFO exact arithmetic under the policy installed inside the check: accept=%v  %s\n", v2.accept, v2.describe(c.Kind))
+		}
 		if problem == "" {
 			fmt.Printf("INFO verdict: agrees with the statement\n")
 		} else {
@@ -333,10 +507,10 @@ func (e *evaluator) check(c *Case) {
 	if problem == "" {
 		return
 	}
-	if !v.inDomain && sig[:4] != "hard" {
+	if !inDomain && sig[:4] != "hard" {
 		// Enumerated but outside the realistic domain of the exact-arithmetic
 		// clause: reported separately, never as a violation.
-		st.outMismatch[coarse(sig)+" outside:"+v.domainReason]++
+		st.outMismatch[coarse(sig)+" outside:"+domainReason]++
 		if len(st.outSamples) < 3 {
 			st.outSamples = append(st.outSamples, map[string]any{"case": *c, "code": o.String(), "exact": v.describe(c.Kind), "what": problem})
 		}
@@ -368,7 +542,7 @@ func (e *evaluator) judgeOutcome(c *Case, o outcomeT, v *verdict) (problem, sig 
 	case o.Accept:
 		return "", ""
 	}
-	names, ok := failureNames[o.Code]
+	names, ok := failureRules(o.Code, c)
 	if !ok {
 		return "rejected with a failure that names none of the statement's rules: " + o.String(),
 			"hard:unexpected-failure:" + c.Kind + ":" + o.Code
@@ -511,9 +685,11 @@ func tier(thorough bool) tierCfg {
 		ir:            []int32{minI32, -1_000_000, -1, 0, 1, 1_000_000, maxI32},
 		worldsA:       []string{"fresh", "tiny"},
 		delta:         []uint32{0, 1, 40, 2016},
-		rd:            []uint32{0, 3, 13},
-		me:            []uint32{1, 2016},
-		heights:       []uint32{1, 800_000, 1 << 31, 1<<32 - 2017, 1<<32 - 14, 1<<32 - 1},
+		// both safety margins: zero, small, the shipped default (13 / 2016) and
+		// default+1 (a configured value above the default must be honoured too)
+		rd:            []uint32{0, 3, 13, 14},
+		me:            []uint32{0, 1, 2016, 2017},
+		heights:       []uint32{0, 1, 800_000, 1 << 31, 1<<32 - 2017, 1<<32 - 14, 1<<32 - 1},
 		b1Rate:        []uint64{0, 250_000, 500_000, 1_000_000},
 		b1Base:        []uint64{0, 1, 3},
 		b1IB:          []int32{-2, -1, 0, 1},
@@ -535,8 +711,8 @@ func tier(thorough bool) tierCfg {
 		t.ir = []int32{minI32, -10_000_001, -10_000_000, -1_000_001, -1_000_000, -500_000, -1, 0, 1, 500_000, 1_000_000, 1_000_001, maxI32}
 		t.worldsA = []string{"fresh", "peer", "tiny", "zero"}
 		t.delta = []uint32{0, 1, 40, 144, 2016, 65535, 65536, 1<<32 - 1}
-		t.rd = []uint32{0, 1, 3, 13, 65536, 1<<32 - 1}
-		t.me = []uint32{0, 1, 2016, 65536, 1<<32 - 1}
+		t.rd = []uint32{0, 1, 3, 12, 13, 14, 40, 65536, 1<<32 - 1}
+		t.me = []uint32{0, 1, 2015, 2016, 2017, 4032, 65536, 1<<32 - 1}
 		t.heights = []uint32{0, 1, 800_000, 1<<31 - 1, 1 << 31, 1<<31 + 1, 1<<32 - 65537, 1<<32 - 2017, 1<<32 - 14, 1<<32 - 2, 1<<32 - 1}
 		t.b1Rate = []uint64{0, 1, 250_000, 333_333, 500_000, 999_999, 1_000_000}
 		t.b1Base = []uint64{0, 1, 2, 7}
@@ -805,8 +981,26 @@ func TestC09(t *testing.T) {
 			budget = time.Duration(n) * time.Second
 		}
 	}
+	nw := runtime.GOMAXPROCS(0)
+	if nw > 16 {
+		nw = 16
+	}
+	evs := make([]*evaluator, nw)
+	var liveBW [2]uint64
+	tSetup := time.Now()
+	for w := range evs {
+		evs[w] = newEvaluator(run, worlds, samples)
+		evs[w].initLive(t)
+		bw := [2]uint64{evs[w].live.bw, evs[w].live.bwAtLinkCreation}
+		if w > 0 && bw != liveBW {
+			t.Fatalf("live worlds differ: %v vs %v", bw, liveBW)
+		}
+		liveBW = bw
+	}
+	fmt.Printf("INFO %d live worlds built in %s\n", nw, time.Since(tSetup).Round(time.Millisecond))
 	deadline := time.Now().Add(budget)
 	jobs := buildJobs(tc, worlds)
+	jobs = append(jobs, buildDimJobs(run.Thorough(), worlds, liveBW)...)
 
 	// VERIF_SEED only rotates the order in which jobs are handed out.
 	if n := len(jobs); n > 0 {
@@ -814,15 +1008,9 @@ func TestC09(t *testing.T) {
 		jobs = append(jobs[r:], jobs[:r]...)
 	}
 
-	nw := runtime.GOMAXPROCS(0)
-	if nw > 16 {
-		nw = 16
-	}
 	var next, skipped int64
-	evs := make([]*evaluator, nw)
 	var wg sync.WaitGroup
 	for w := 0; w < nw; w++ {
-		evs[w] = newEvaluator(run, worlds, samples)
 		wg.Add(1)
 		go func(e *evaluator) {
 			defer wg.Done()
@@ -852,6 +1040,9 @@ func TestC09(t *testing.T) {
 		tot.nondet += s.nondet
 		for k, v := range s.byPart {
 			tot.byPart[k] += v
+		}
+		for k, v := range s.byDim {
+			tot.byDim[k] += v
 		}
 		for k, v := range s.outcomes {
 			tot.outcomes[k] += v
@@ -896,6 +1087,7 @@ func TestC09(t *testing.T) {
 	for _, w := range worlds {
 		wb[w.name] = w.bw
 	}
+	wb["live"], wb["live(at link creation)"] = liveBW[0], liveBW[1]
 	cov := map[string]any{
 		"evaluations":         tot.evals,
 		"distinct_nontrivial": len(tot.classesNT),
@@ -905,6 +1097,7 @@ func TestC09(t *testing.T) {
 		"samples":                             samples.List(),
 		"boundary_situations_total":           len(tot.classes),
 		"evaluations_by_part":                 tot.byPart,
+		"evaluations_by_added_dimension":      tot.byDim,
 		"outcome_classes":                     tot.outcomes,
 		"oracle_rule_violated_counts":         tot.ruleViolated,
 		"cases_at_threshold_by_rule_and_side": tot.nearThreshold,
@@ -951,11 +1144,12 @@ func replay(t *testing.T, run *evid.Run, worlds []*world, path string) int {
 	c := f.Replay
 	samples := evid.NewSamples(1)
 	e := newEvaluator(run, worlds, samples)
-	if e.worldIdx(c.World) < 0 {
+	e.initLive(t)
+	if e.world(c.World) == nil {
 		t.Fatalf("replay: unknown world %q", c.World)
 	}
 	fmt.Printf("INFO replaying %s (recorded signature %s)\n", path, f.Signature)
-	if got := e.worlds[e.worldIdx(c.World)].bw; got != c.Bandwidth {
+	if got := e.world(c.World).bw; got != c.Bandwidth {
 		fmt.Printf("INFO world %s: bandwidth is now %d msat, recorded %d msat\n", c.World, got, c.Bandwidth)
 	}
 	e.verbose = true
